@@ -101,6 +101,29 @@ def header_of(sc):
     return h
 
 
+def filter_kwargs(sc, fs):
+    """non-default settings of the high-pass and of the spatial filter (scenario option `fkw`): {} when the defaults are used"""
+    if not sc.get("fkw"):
+        return {}
+    kw = {"butter_kwargs": {"N": 2, "Wn": 600 / fs * 2, "btype": "highpass"}}
+    if sc["k_filter"]:
+        kw["k_kwargs"] = {"ntr_pad": 40, "ntr_tap": 0, "lagc": 2000, "butter_kwargs": {"N": 3, "Wn": 0.02, "btype": "highpass"}}
+    return kw
+
+
+def _snapshot(kw):
+    import copy
+    return copy.deepcopy({k: kw[k] for k in ("h", "reader_kwargs", "butter_kwargs", "k_kwargs") if k in kw})
+
+
+def _same(a, b):
+    if isinstance(a, dict):
+        return isinstance(b, dict) and list(a) == list(b) and all(_same(a[k], b[k]) for k in a)
+    if isinstance(a, np.ndarray):
+        return isinstance(b, np.ndarray) and a.dtype == b.dtype and a.shape == b.shape and np.array_equal(a, b, equal_nan=a.dtype.kind == "f")
+    return type(a) is type(b) and a == b
+
+
 def expected_batches(sc, data, labels, sr):
     """batch-wise in-memory destriping with the documented taper margins -> rows per canonical batch"""
     import scipy.signal
@@ -118,7 +141,7 @@ def expected_batches(sc, data, labels, sr):
         chunk[:, :T] *= taper[:T]
         chunk[:, -T:] *= taper[T:]
         x = voltage.destripe(chunk, fs=sr.fs, h=h, channel_labels=labels if sc["reject"] else None,
-                             k_filter=sc["k_filter"])
+                             k_filter=sc["k_filter"], **filter_kwargs(sc, sr.fs))
         x = x.T * mute[:, None] / sr.sample2volts[:384]
         w = wrot_of(sc)
         if w is not None:
@@ -255,6 +278,11 @@ def main():
                 # options for the Reader (the recording read in its on-disk channel order): they hold for the parent's reader and
                 # for every worker's
                 kw["reader_kwargs"] = dict(sc["rkw"])
+            if sc.get("fkw"):
+                with spikeglx.Reader(c["binf"]) as sr0:
+                    kw.update(filter_kwargs(sc, sr0.fs))
+            # what the caller owns and may use again: the header, the option dictionaries (compared after the call)
+            mine = _snapshot(kw)
             a_in = str(c["binf"]) if as_str else c["binf"]
             a_out = None if sc.get("outdef") else (str(out) if as_str else out)
             try:
@@ -264,6 +292,9 @@ def main():
                                                  wrot=wrot, **kw)
             except BaseException as e:  # noqa
                 r["exc"] = f"{type(e).__name__}: {str(e)[:200]}"
+            if not r["exc"] and not _same(mine, _snapshot(kw)):
+                changed = [k for k in mine if not _same(mine[k], kw.get(k))]
+                r["exc"] = f"CallerSettingsChanged: the call changed the caller's {changed}"
             evs = []
             for f in sorted(tracedir.glob("*.ndjson")):
                 evs += [json.loads(line) for line in f.read_text().splitlines()]
